@@ -22,6 +22,7 @@ def parseAct (j : Json) : Except String Act := do
   | .arr #[.str "commit"] => pure .commit
   | .arr #[.str "commitMid"] => pure .commitMid
   | .arr #[.str "rollback"] => pure .rollback
+  | .arr #[.str "begin"] => pure .begin
   | _ => throw s!"bad action {j.compress}"
 
 def resJson : Res → Json
